@@ -212,7 +212,7 @@ func c01Twin(run *evid.Run, h *hx.History, twin int, table map[string]*stateFn, 
 			if d := obsEqual(before, after); d != "" {
 				run.Violate("C01/noop-changed", det("op", s.Op), wit(where), "%s changed the log: %s", s.Op, d)
 			}
-		case "denyappend", "joinrejected", "joinalien", "joinimpostor", "joinmislabelled", "joinrelabelled":
+		case "denyappend", "joinrejected", "joinalien", "joinimpostor", "joinmislabelled", "joinrelabelled", "joinotherid":
 			// a refused operation must change nothing (then or later: the state-function table keeps watching)
 			before := hx.Observe(x.Logs[s.R])
 			res := x.Do(i)
@@ -389,6 +389,8 @@ func CheckC02(run *evid.Run) {
 		o2 := opts
 		o2.Failures = i%2 == 1
 		o2.Bursts = i%3 == 0
+		o2.Hostile = true
+		o2.Truncated = i%5 == 4 // merges from length-limited loads: logs with gaps (an entry's predecessor is not held)
 		h := hx.Gen(run.Seed, i, o2)
 		x := hx.NewExec(h)
 		var tr histTrack
@@ -545,6 +547,8 @@ func CheckC03(run *evid.Run) {
 			o2 := opts
 			o2.Failures = i%2 == 1
 			o2.Extra = i%4 == 2 // rebuilds from storage, identity changes
+			o2.Hostile = !o2.Extra
+			o2.Truncated = i%5 == 4 // merges from length-limited loads: logs with gaps (an entry's predecessor is not held)
 			h = hx.Gen(run.Seed, i, o2)
 		} else {
 			h = genShapeDAG(run.Seed, i-nh, run.Tier)
